@@ -458,7 +458,12 @@ def run_check(prop, tier, verif_seed, nproc=None, max_wall=None, quiet=False):
         if enum_info.get('exhaustive_dimension'):
             cov['exhaustive_dimension'] = enum_info['exhaustive_dimension']
     if hasattr(chk, 'extra_evidence'):
-        cov.update(chk.extra_evidence(agg))
+        extra = chk.extra_evidence(agg)
+        for e in extra.pop('__errors__', []):
+            errors.append(e)
+            exit_code = exit_code or 2
+            print('HARNESS-ERROR:', e)
+        cov.update(extra)
     ev = {
         'property_id': prop, 'tier': tier, 'seed': verif_seed, 'level': chk.LEVEL,
         'coverage': cov, 'assumptions': chk.ASSUMPTIONS, 'wall_s': round(wall, 2),
